@@ -118,6 +118,20 @@ func propC14(c *Ctx) {
 		}
 	}
 	c.Notes = append(c.Notes, fmt.Sprintf("exhaustive: all strings of length <= %d over {quote, other quote, ASCII, 2-/3-/4-byte rune, space, newline} x 4 quote characters x 3 quote states, for encode+decode+stream read-back, raw decode (lone quotes, unterminated literals) and state tokenization", maxL))
+	// characters with a special role in some encoding layer: U+FFFD (what a decoder substitutes for malformed bytes, but also an
+	// ordinary character), NUL, DEL, BOM, non-characters, the ends of the planes, the first runes of each UTF-8 length
+	for _, sp := range []rune{0xfffd, 0, 0x7f, 0xfeff, 0xfffe, 0xffff, 0x10ffff, 0xd7ff, 0xe000, 0x80, 0xff, 0x100, 0x7ff, 0x800, 0x10000, '\r', '\t', '\\'} {
+		for _, st := range states {
+			for _, q := range []rune{'\'', '"', 0xab} {
+				sst, qq := st, q
+				enumStrings([]rune{q, 'a', sp}, 3, func(s []rune) {
+					t := append([]rune(nil), s...)
+					runQuoteCase(c, sst, qq, "enc", t)
+					runQuoteCase(c, sst, qq, "dec", t)
+				})
+			}
+		}
+	}
 	// alternate the quote character from call to call on the shared state objects
 	for _, st := range states {
 		for _, t := range [][]rune{[]rune("it's"), []rune("a\"b"), []rune("''a'"), []rune("x"), {}, []rune("\"\""), []rune("'\"'")} {
